@@ -478,6 +478,24 @@ pixman_composite_glyphs_no_mask (pixman_op_t            op,
 	{
 	    if (box32_intersect (&composite_box, pbox, &glyph_box))
 	    {
+		pixman_box32_t src_extents;
+		uint32_t ignored_flags = 0;
+
+		/* The fast paths are dispatched here directly, so the source
+		 * has to pass the same admission test that
+		 * pixman_image_composite32 () applies to it for this box.
+		 */
+		src_extents.x1 = composite_box.x1 - (dest_x - src_x);
+		src_extents.y1 = composite_box.y1 - (dest_y - src_y);
+		src_extents.x2 = composite_box.x2 - (dest_x - src_x);
+		src_extents.y2 = composite_box.y2 - (dest_y - src_y);
+
+		if (!_pixman_analyze_extent (src, &src_extents, &ignored_flags))
+		{
+		    pbox++;
+		    continue;
+		}
+
 		if (glyph_img->common.extended_format_code != glyph_format	||
 		    glyph_img->common.flags != glyph_flags)
 		{
